@@ -67,6 +67,8 @@ func vCasBlobFile(t *testing.T, data []byte, hash string) []byte {
 	return b
 }
 
+var vLostUploads int
+
 func TestVerifS3RoundTrip(t *testing.T) {
 	rec := vNewRecorder(t, "s3proxy")
 	defer rec.Close(t)
@@ -99,7 +101,12 @@ func TestVerifS3RoundTrip(t *testing.T) {
 				}
 				p.Put(ctx, kind, hash, int64(n), int64(len(stored)), io.NopCloser(bytes.NewReader(stored)))
 				arrived := false
-				for i := 0; i < 300; i++ {
+				// asynchronous upload: patient on a loaded machine (30 s), short once two uploads were lost for good
+				wait := 3000
+				if vLostUploads >= 2 {
+					wait = 300
+				}
+				for i := 0; i < wait; i++ {
 					if o, err := backend.HeadObject("bucket", want); err == nil && o != nil {
 						arrived = true
 						break
@@ -111,6 +118,7 @@ func TestVerifS3RoundTrip(t *testing.T) {
 				rec.Count(fmt.Sprintf("arrived=%v", arrived))
 				rec.Distinct(sig)
 				if !arrived {
+					vLostUploads++
 					var names []string
 					if l, err := backend.ListBucket("bucket", nil, gofakes3.ListBucketPage{}); err == nil {
 						for _, c := range l.Contents {
